@@ -113,8 +113,13 @@ def check_l1(ctx) -> None:
     # store: keyed by the name, last occurrence wins; the only conditions on the way to it are "not a comment" and "at least two fields"
     enough = (f'len({EL}) >= 2', f'len({EL}) > 1', f'2 <= len({EL})', f'not len({EL}) < 2')
     extra = []
+    from gxstat.inline import enclosing_stmt
+
+    def gtxt(t) -> str:
+        # a guard may test a named intermediate (`n = len(elements); if n < 2: continue`)
+        return norm(inline_sequential(t, enclosing_stmt(t), keep=(EL, LINE)))
     for t, pol in guards_of(s, loop):
-        txt = norm(t)
+        txt = gtxt(t)
         if t is st.test:
             continue
         if (pol and txt in enough) or (not pol and txt == f'len({EL}) < 2'):
@@ -125,7 +130,7 @@ def check_l1(ctx) -> None:
     # nothing else in the loop can drop a data line
     for x in ast.walk(loop):
         if isinstance(x, (ast.Continue, ast.Break)):
-            g = [norm(t) for t, pol in guards_of(x, loop) if t is not st.test]
+            g = [gtxt(t) for t, pol in guards_of(x, loop) if t is not st.test]
             ok = isinstance(x, ast.Continue) and (not g or all(t in (f'len({EL}) < 2',) for t in g)) and \
                 (any(y is x for b_ in skipped_branch for y in ast.walk(b_)) or bool(g))
             ctx.check(ok, 'L1', f'read_input_file/skip:{(g[-1] if g else "unconditional")[:40]}', f'{rel}:{x.lineno}',
